@@ -279,6 +279,67 @@ pub fn run_c01(tier: &str) -> i32 {
         rep.bound("orders: complete (7!) only on 6,009,159 suit-class representatives (thorough); 14 structured orders on every set; the full 6.74e11 order sweep runs only with VERIF_DEEP=1");
     }
 
+    // (h) call histories: the evaluation is a function of the seven cards, whatever was evaluated
+    // before on the same thread. Alphabet: the witness of every reachable flush / straight-flush
+    // class in all four suit rotations, plus every 20th other witness; all ordered pairs (h1, h2):
+    // evaluate h1, then h2 must still get its own class.
+    {
+        let mut hands: Vec<([u8; 7], u16)> = vec![];
+        let rot: Vec<[u8; 4]> = (0..4u8).map(|k| [k % 4, (k + 1) % 4, (k + 2) % 4, (k + 3) % 4]).collect();
+        let mut other = 0usize;
+        for (c, w) in witness.iter().enumerate() {
+            if let Some(w) = w {
+                let cat = m.category_of_class(c as u16);
+                if cat == 5 || cat == 8 {
+                    for r in &rot {
+                        let mut h = [0u8; 7];
+                        for i in 0..7 {
+                            h[i] = relabel(w[i], r);
+                        }
+                        hands.push((h, c as u16));
+                    }
+                } else {
+                    other += 1;
+                    if other % 20 == 0 {
+                        hands.push((*w, c as u16));
+                    }
+                }
+            }
+        }
+        let nh = hands.len();
+        let outs = par_map(nh, |i| {
+            let (h1, _) = hands[i];
+            let mut bad = vec![];
+            let mut bad_total = 0u64;
+            for (h2, c2) in hands.iter() {
+                let _ = eval(arr(&all, &h1));
+                let got = eval(arr(&all, h2));
+                if got != Ok(*c2) {
+                    bad_total += 1;
+                    if bad.len() < 2 {
+                        bad.push(Violation {
+                            key: format!("history={} then {}", cards_text(&h1), cards_text(h2)),
+                            sub: "call-history".into(),
+                            case: json!({"history": [h1.to_vec(), h2.to_vec()]}),
+                            expected: json!({"class_of_second_hand": c2}),
+                            observed: match got { Ok(v) => json!({"power_index": v}), Err(e) => json!({"panic": e}) },
+                        });
+                    }
+                }
+            }
+            (bad, bad_total)
+        });
+        for (bad, bt) in outs {
+            let extra = bt - bad.len() as u64;
+            for v in bad {
+                rep.violation(v);
+            }
+            rep.violations_total += extra;
+        }
+        rep.machine(nh as u64, (nh * nh) as u64, (nh * nh) as u64);
+        rep.sub("call-history", "all ordered pairs (h1, h2) over the witnesses of every reachable flush and straight-flush class in the four suit rotations plus every 20th other witness: h1 is evaluated, then h2 on the same thread must get its own class (the evaluation is a pure function of the cards). states = hands, transitions = pairs", (2 * nh * nh) as u64, nh as u64, false, json!({"hands": nh}));
+    }
+
     // (d) comparison operators on one witness per reachable class
     let ws: Vec<(u16, MadeHand)> = witness
         .iter()
@@ -485,6 +546,16 @@ pub fn replay(case: &Value) -> Value {
         let class = m.class7(&p);
         return json!({"cards": cards_text(&p), "true_class": class, "true_category": CATEGORY_NAMES[m.category_of_class(class)],
             "observed": match got { Ok((i, t)) => json!({"power_index": i, "hand_type": t}), Err(e) => json!({"panic": e}) }});
+    }
+    if let Some(h) = case.get("history").and_then(|c| c.as_array()) {
+        let mut seq = vec![];
+        for hand in h {
+            let idx: Vec<u8> = hand.as_array().unwrap().iter().map(|v| v.as_u64().unwrap() as u8).collect();
+            let p: [u8; 7] = idx.try_into().unwrap();
+            let got = eval(arr(&all, &p));
+            seq.push(json!({"cards": cards_text(&p), "true_class": m.class7(&p), "observed": format!("{:?}", got)}));
+        }
+        return json!({"sequence": seq});
     }
     json!({"error": "unsupported replay case"})
 }
